@@ -3,7 +3,7 @@ use std::sync::atomic::{AtomicBool, Ordering};
 
 use crate::{Rng, Runner};
 
-// the three recorded findings are reported once per campaign (first case that rediscovers each)
+// the recorded configuration finding, and a regression of either fixed finding, are reported once per campaign
 static SEEN_RESET_DISABLED: AtomicBool = AtomicBool::new(false);
 static SEEN_BLACK_HOLE_PEER: AtomicBool = AtomicBool::new(false);
 static SEEN_MIN_CHANGE: AtomicBool = AtomicBool::new(false);
@@ -291,7 +291,6 @@ pub fn mtud(rng: &mut Rng, r: &mut Runner, maxops: usize) {
                 let ok = match (w[1], probe) {
                     ("acked", Some((p, s))) => res == "true" && w[2] == "2" && w[3] == p.to_string() && nowo.mtu == s,
                     ("reset", _) => true, // path_changed(): back to the configured initial MTU
-                    ("bhd", _) => res == "true" && nowo.mtu == nowo.min_mtu, // only when a peer limit below min_mtu had clamped it
                     _ => false,
                 };
                 if !ok {
@@ -320,11 +319,13 @@ pub fn mtud(rng: &mut Rng, r: &mut Runner, maxops: usize) {
             // (5) black hole: back to min_mtu, search suspended
             if is_bhd && res == "true" {
                 finished = true;
-                if nowo.mtu != nowo.min_mtu || (nowo.enabled && nowo.phase != 'C') || nowo.bursts != 0 {
-                    r.oracle_fail("key=mtud-black-hole-reset black hole detected but state not reset to min_mtu / Complete");
+                // falls back to min_mtu, but never upwards (an estimate below min_mtu is the peer's limit)
+                if nowo.mtu != nowo.min_mtu.min(before.mtu) || (nowo.enabled && nowo.phase != 'C') || nowo.bursts != 0 {
+                    r.oracle_fail("key=mtud-black-hole-reset black hole detected but state not reset to min(current_mtu, min_mtu) / Complete");
                 }
             }
-            // (6) never above what the peer announced  (two known findings of the unchanged code)
+            // (6) never above what the peer announced (the first two keys were findings of the code before the `fix:` commits;
+            //     a regression of either fix is a VIOLATION under the same key)
             if let Some(a) = announced {
                 if nowo.mtu > a {
                     if !nowo.enabled && is_reset {
